@@ -136,6 +136,20 @@ def int_cases():
     uid += 1
     cases.append(Case("int/comptime-param/comptime-arg", f"cq{uid}(3);", "6 ",
                       decls=f"cq{uid} :: (comptime n: i64) {{ pr(gen(n)); }}"))
+    # comptime value parameters that come *after* runtime parameters (their index among the comptime parameters differs
+    # from their index among all parameters)
+    uid += 1
+    cases.append(Case("int/comptime-param-after-runtime/array-length", f"cr{uid}(7, 3);", "3 7 ",
+                      decls=f"cr{uid} :: (tag: i32, comptime n: usize) {{ arr : [n]i32; pr(i64.(arr.len)); pr(i64.(tag)); }}"))
+    uid += 1
+    cases.append(Case("int/two-comptime-params-after-runtime/array-length", f"cs{uid}(7, 2, 5);", "2 5 7 ",
+                      decls=f"cs{uid} :: (tag: i32, comptime rows: usize, comptime cols: usize) {{ a : [rows]i32; b : [cols]u8; pr(i64.(a.len)); pr(i64.(b.len)); pr(i64.(tag)); }}"))
+    uid += 1
+    cases.append(Case("int/comptime-param-between-runtime/comptime-arg", f"cv{uid}(1, 4, 2);", "8 3 ",
+                      decls=f"cv{uid} :: (x: i64, comptime n: i64, y: i64) {{ pr(gen(n)); pr(x + y); }}"))
+    uid += 1
+    cases.append(Case("int/comptime-param-after-runtime/discriminant", f"cw{uid}(1, 5);", "1 ",
+                      decls=f"cw{uid} :: (x: i64, comptime d: u8) {{ Ed{uid} :: enum {{ A | d, B | 200 }}; e : Ed{uid} = Ed{uid}.A; if #is_variant(e, Ed{uid}.A) {{ pr(x); }} }}"))
     return cases
 
 
@@ -167,6 +181,9 @@ def type_cases():
     uid += 1
     cases.append(Case("type/comptime-param/comptime-arg", f"cu{uid}(i32);", "5 ",
                       decls=f"cu{uid} :: (comptime T: type) {{ pr(i64.(gent(T, 5))); }}"))
+    uid += 1
+    cases.append(Case("type/comptime-params-after-runtime/annotation", f"cx{uid}(9, i64, 3);", "3 9 9 ",
+                      decls=f"cx{uid} :: (v: i64, comptime T: type, comptime n: usize) {{ arr : [n]T; arr[0] = v; pr(i64.(arr.len)); pr(i64.(arr[0])); pr(v); }}"))
     return cases
 
 
